@@ -536,7 +536,7 @@ type genState struct {
 func (g *genState) pick(c *Ctx, pred func(b binding) bool) (int, bool) {
 	var cands []int
 	for v := 0; v < nVars; v++ {
-		if g.bs[v].present && pred(g.bs[v]) {
+		if g.bs[v].present && len(g.bs[v].text) <= 250 && pred(g.bs[v]) { // keeps renderings bounded (nesting doubles them)
 			cands = append(cands, v)
 		}
 	}
